@@ -23,7 +23,7 @@ class Dispatch(ObsSpec):
         self.W, self.world, self.reentrant = W, W, reentrant
         self.prop = prop
         self.tag = "reentrant-callbacks" if reentrant else "plain-callbacks"
-        self.loops = {1: LoopSpec("self._handlers[watch].copy()", self.inv, modifies=[("ghost", "called")] + ([("heap", lambda ex: self.me, f) for f in PROTECTED] if reentrant else []),
+        self.loops = {1: LoopSpec("self._handlers[watch].copy()", self.inv, modifies=[("ghost", "called")] + ([("heap", lambda ex: self.me, f) for f in PROTECTED] if reentrant else []), snapshot=True,
                                   ghost_start=self.gs, every_element=True)}
         self.expected_covers = ["loop1.body", "loop1.end", "exit"]
 
@@ -197,10 +197,16 @@ def make_specs():
         s2 = c13.WatchSpec(WW, n)
         s2.prop = PROP
         specs.append(s2)
+    # 'a handler never receives an event of a watch it is not registered for': the queue an observer dispatches from is its
+    # own - created by its constructor, not shared with another observer
+    from specs import c06
+    di = c06.DispatcherInit()
+    di.prop = PROP
+    specs.append(di)
     return specs
 
 
-EXPECTED_CLAUSES = ["dispatch_events.post[every handler registered for the watch is called exactly once", "dispatch_events.callback[handler is registered for this watch at the instant",
+EXPECTED_CLAUSES = ["EventDispatcher.__init__.post[the event queue is created by this constructor call", "dispatch_events.post[every handler registered for the watch is called exactly once", "dispatch_events.callback[handler is registered for this watch at the instant",
                     "dispatch_events.callback[observer lock held]", "queue_event.post[queued iff", "queue_event.post[the item is the pair", "schedule.lock-held[", "unschedule.lock-held[", "unschedule_all.lock-held["]
 CANARIES = [
     {"name": "iterate the handler set without the lock", "file": API, "fn": "BaseObserver.dispatch_events",
